@@ -145,7 +145,8 @@ Proof.
 Qed.
 Lemma char_high r : 128 <= r -> is_scalar r = true -> char_case_ok r = true.
 Proof.
-  intros Hhi Hs. unfold char_case_ok, char_name. rewrite special_none by exact Hhi. replace (r <? 32) with false by lia.
+  intros Hhi Hs. unfold char_case_ok, char_name, char_by_code. rewrite special_none by exact Hhi.
+  replace (r <? 32) with false by lia. replace (r <? 128) with false by lia. cbn [andb orb].
   pose proof (utf8_high_bytes r Hhi) as HF. pose proof (utf8_length r Hhi) as HL. pose proof (decode_encode r [] Hs) as HD.
   rewrite app_nil_r in HD.
   destruct (utf8 r) as [|b0 [|b1 tl]] eqn:Eu; cbn [length] in HL; try lia.
@@ -164,7 +165,7 @@ Proof.
   intros He Hc. unfold char_text. rewrite He.
   assert (Hok : char_case_ok r = true).
   { destruct (N.lt_ge_cases r 128); [apply char_small; assumption|apply char_high; [assumption|]].
-    unfold char_readable in Hc. apply andb_true_iff in Hc as [Hc _]. apply andb_true_iff in Hc as [Hc _]. exact Hc. }
+    exact Hc. }
   unfold char_case_ok in Hok. apply andb_true_iff in Hok as [Hok Hcls]. apply andb_true_iff in Hok as [Hres Hne].
   destruct (resolve_char (char_name r)) as [[| | | | | |r'| | | | | |]|] eqn:E; try discriminate Hres. apply N.eqb_eq in Hres. subst r'.
   exists (TLeaf (LChar (char_name r))), (OChr r). split.
@@ -213,6 +214,57 @@ Proof.
   unfold resolve_buf. repeat match goal with E : _ = false |- _ => rewrite E; clear E end. reflexivity.
 Qed.
 
+(* every numeric token begins with a digit or a sign *)
+Lemma strip_sign_other (b : byte) r : b <> 43 -> b <> 45 -> strip_sign (b :: r) = b :: r.
+Proof.
+  intros H1 H2. unfold strip_sign. destruct b as [|p]; [reflexivity|].
+  repeat (destruct p as [p|p|]; try reflexivity); contradiction.
+Qed.
+Lemma numeric_like_first (b : byte) r : numeric_like (b :: r) = true -> numeric_first b = true.
+Proof.
+  intros H. destruct (numeric_first b) eqn:E; [reflexivity|]. exfalso.
+  assert (Hs : strip_sign (b :: r) = b :: r) by (apply strip_sign_other; unfold numeric_first, is_digit in E; lia).
+  assert (Hd : is_digit b = false) by (unfold numeric_first in E; lia).
+  assert (Hsp : span_digits (b :: r) = ([], b :: r)) by (cbn [span_digits]; rewrite Hd; reflexivity).
+  unfold numeric_like, int_rx, float_rx, ratio_rx in H. rewrite Hs, Hsp in H. cbn in H. discriminate H.
+Qed.
+Lemma lower_numeric_first b : numeric_first (lower b) = numeric_first b.
+Proof. unfold numeric_first, is_digit, lower. destruct ((65 <=? b) && (b <=? 90)) eqn:E; lia. Qed.
+(* what Symbol.needPipes = false says, clause by clause *)
+Lemma need_pipes_false (name : list byte) : need_pipes name = false ->
+  flagged name = false /\
+  match name with b :: _ => numeric_first b && numeric_like (map lower name) | [] => false end = false /\
+  name <> [46] /\ is_nil_tok name = false /\ match name with 64 :: _ => False | _ => True end.
+Proof.
+  unfold need_pipes. intros H. apply orb_false_iff in H as [H H5]. apply orb_false_iff in H as [H H4].
+  apply orb_false_iff in H as [H H3]. apply orb_false_iff in H as [H1 H2].
+  repeat split; try assumption.
+  - intros ->. discriminate H3.
+  - destruct name as [|b r]; [exact I|]. destruct b as [|p]; [exact I|].
+    repeat (destruct p as [p|p|]; try exact I). discriminate H5.
+Qed.
+(* a name Symbol.needPipes leaves without bars is resolved to a symbol, whatever the print case *)
+Lemma need_pipes_false_resolves c (name : list byte) : need_pipes name = false ->
+  resolve_token (case_name (p_case c) name) = OSym (case_name (p_case c) name).
+Proof.
+  intros H. destruct (need_pipes_false name H) as (_ & H2 & _). destruct name as [|b r]; [destruct (p_case c); reflexivity|].
+  apply resolve_symbolic. rewrite map_lower_case.
+  destruct (numeric_first b) eqn:Ef; [exact H2|]. cbn [map].
+  destruct (numeric_like (lower b :: map lower r)) eqn:E; [|reflexivity].
+  apply numeric_like_first in E. rewrite lower_numeric_first in E. congruence.
+Qed.
+(* ... and is made of bytes the reader keeps in one token *)
+Lemma need_pipes_false_shape (b : byte) r : forallb (fun x => x <? 256) (b :: r) = true -> need_pipes (b :: r) = false ->
+  token_first b = true /\ forallb token_byte r = true.
+Proof.
+  intros H256 H. destruct (need_pipes_false _ H) as (H1 & _ & _ & _ & H5). cbn [flagged] in H1.
+  apply orb_false_iff in H1 as [Hb Hr]. cbn [forallb] in H256. apply andb_true_iff in H256 as [Hb256 Hr256]. split.
+  - apply unflagged_token_first; [lia|exact Hb|]. destruct (N.eqb_spec b 64) as [->|]; [contradiction|reflexivity].
+  - apply forallb_forall. intros x Hx. rewrite forallb_forall in Hr256. specialize (Hr256 x Hx).
+    apply unflagged_token_byte; [lia|]. destruct (need_pipe x) eqn:E; [|reflexivity].
+    assert (existsb need_pipe r = true) by (apply existsb_exists; exists x; split; assumption). congruence.
+Qed.
+
 Lemma pipe_ok_closed b : pipe_ok_byte b = true /\ b < 128 -> (pipe_ok_byte (lower b) = true /\ lower b < 128) /\ (pipe_ok_byte (upper b) = true /\ upper b < 128).
 Proof.
   intros [H Hb]. unfold pipe_ok_byte in *. unfold lower, upper.
@@ -220,16 +272,15 @@ Proof.
 Qed.
 
 (* the name as the printer writes it without bars *)
-Lemma bare_reads c (s : list byte) : bare_ok s = true ->
+Lemma bare_reads c (s : list byte) : forallb (fun x => x <? 256) s = true -> need_pipes s = false -> is_t s = false -> s <> [] ->
   exists y, Reads (case_name (p_case c) s) (TLeaf (LTok (case_name (p_case c) s))) /\
             obj_of_tree (TLeaf (LTok (case_name (p_case c) s))) = Some y /\ obj_equal (OSym s) y = true /\
             ty_eqb (type_of (OSym s)) (type_of y) = true /\ is_dot (TLeaf (LTok (case_name (p_case c) s))) = false /\
             case_name (p_case c) s <> [].
 Proof.
-  unfold bare_ok. intros H. apply andb_true_iff in H as [H Hdot]. apply andb_true_iff in H as [H Hnil].
-  apply andb_true_iff in H as [H Ht]. apply andb_true_iff in H as [Hshape Hnum].
-  destruct s as [|b r]; [discriminate Hshape|]. apply andb_true_iff in Hshape as [Hf Hr].
-  apply negb_true_iff in Hnum, Ht, Hnil, Hdot.
+  intros H256 Hnp Ht Hne. pose proof (need_pipes_false_resolves c s Hnp) as Hres.
+  destruct (need_pipes_false s Hnp) as (_ & _ & Hdot & Hnil & _).
+  destruct s as [|b r]; [contradiction|]. destruct (need_pipes_false_shape b r H256 Hnp) as [Hf Hr].
   set (w := case_name (p_case c) (b :: r)).
   assert (Htok : exists a rest, w = a :: rest /\ token_first a = true /\ forallb token_byte rest = true).
   { assert (HrL : forallb token_byte (map lower r) = true).
@@ -243,61 +294,72 @@ Proof.
   { unfold tok_tree, w. rewrite is_t_case by exact Ht. rewrite is_nil_tok_case, Hnil. reflexivity. }
   exists (OSym w). split; [rewrite <- Htt, Ew; apply Reads_token; assumption|].
   repeat split.
-  - cbn [obj_of_tree]. rewrite resolve_symbolic; [reflexivity|]. unfold w. rewrite map_lower_case. exact Hnum.
+  - cbn [obj_of_tree]. unfold w. rewrite Hres. reflexivity.
   - cbn [obj_equal]. unfold w. rewrite map_lower_case. apply bytes_eqb_refl.
   - destruct (is_dot (TLeaf (LTok w))) eqn:Ed; [|reflexivity]. apply is_dot_true in Ed. apply case_46 in Ed.
-    rewrite Ed in Hdot. discriminate Hdot.
+    contradiction.
   - rewrite Ew. discriminate.
 Qed.
 
-Lemma keyword_no_pipe (s : list byte) : existsb need_pipe s = false -> forall c, symbol_text c s = match s with [] => [124; 124] | _ => case_name (p_case c) s end.
+(* the escaped spelling between bars reads back as the name, byte for byte *)
+Lemma pesc_byte_body b : b < 256 -> SymBody (pesc_byte b) [b].
 Proof.
-  intros H c. unfold symbol_text. destruct s as [|b r]; [reflexivity|]. rewrite H.
-  destruct b as [|p]; [reflexivity|]. repeat (destruct p as [p|p|]; try reflexivity).
+  intros Hr. unfold pesc_byte. destruct ((b =? 124) || (b =? 92)) eqn:E1.
+  - assert (Hc : b = 124 \/ b = 92) by lia. destruct Hc as [-> | ->]; [exact (SymBody_esc1 124 eq_refl)|exact (SymBody_esc1 92 eq_refl)].
+  - destruct ((b <? 32) && negb ((b =? 9) || (b =? 10) || (b =? 13))) eqn:E2.
+    + assert (Hc : b = 0 \/ b = 1 \/ b = 2 \/ b = 3 \/ b = 4 \/ b = 5 \/ b = 6 \/ b = 7 \/ b = 8 \/ b = 11 \/ b = 12 \/
+                   b = 14 \/ b = 15 \/ b = 16 \/ b = 17 \/ b = 18 \/ b = 19 \/ b = 20 \/ b = 21 \/ b = 22 \/ b = 23 \/ b = 24 \/
+                   b = 25 \/ b = 26 \/ b = 27 \/ b = 28 \/ b = 29 \/ b = 30 \/ b = 31) by lia.
+      repeat (destruct Hc as [->|Hc]);
+        first [ match goal with |- SymBody _ [?r] => exact (SymBody_u4 0 0 (r / 16) (r mod 16) eq_refl eq_refl eq_refl eq_refl) end
+              | subst; exact (SymBody_u4 0 0 (31 / 16) (31 mod 16) eq_refl eq_refl eq_refl eq_refl) ].
+    + apply SymBody_plain, pipe_ok_raw; [exact Hr|]. unfold pipe_ok_byte. lia.
+Qed.
+Lemma pesc_body (w : list byte) : Forall (fun b => b < 256) w -> SymBody (pesc w) w.
+Proof.
+  induction 1 as [|b w Hb _ IH]; [apply SymBody_nil|]. unfold pesc. cbn [map concat].
+  change (b :: w) with ([b] ++ w). apply SymBody_app; [apply pesc_byte_body; exact Hb|exact IH].
+Qed.
+Lemma below_128_closed b : b < 128 -> lower b < 128 /\ upper b < 128.
+Proof.
+  intros H. unfold lower, upper. destruct ((65 <=? b) && (b <=? 90)) eqn:E1; destruct ((97 <=? b) && (b <=? 122)) eqn:E2; split; lia.
 Qed.
 
-Lemma RT_sym c inl (s : list byte) : sym_ok c inl s = true ->
-  RT (OSym s) (symbol_text c s) /\ (inl = true -> symbol_text c s = case_name (p_case c) s /\ case_name (p_case c) s <> []).
+Lemma case_name_bytes c (name : list byte) : forallb (fun b => b <? 256) name = true ->
+  forallb (fun b => b <? 128) name || case_is_none c = true -> Forall (fun b => b < 256) (case_name (p_case c) name).
 Proof.
-  unfold sym_ok. intros H. apply andb_true_iff in H as [Hascii H].
+  intros H256 H. apply orb_true_iff in H as [H|H].
+  - assert (HF : Forall (fun b => b < 128) (case_name (p_case c) name)).
+    { apply case_name_forall; [apply below_128_closed|]. apply Forall_forall. intros y Hy.
+      rewrite forallb_forall in H. specialize (H y Hy). lia. }
+    rewrite Forall_forall in *. intros x Hx. specialize (HF x Hx). lia.
+  - unfold case_is_none in H. destruct (p_case c); try discriminate H. cbn [case_name].
+    apply Forall_forall. intros y Hy. rewrite forallb_forall in H256. specialize (H256 y Hy). lia.
+Qed.
+
+Lemma RT_sym c (s : list byte) : sym_ok c s = true -> RT (OSym s) (symbol_text c s).
+Proof.
   destruct s as [|b r].
   - (* the empty name: || *)
-    apply negb_true_iff in H. subst inl. split; [|discriminate].
-    exists (TLeaf (LPipe [])), (OSym []). split; [exact (Reads_pipe [] (fun b (H : In b []) => match H with end))|].
+    intros _. exists (TLeaf (LPipe [])), (OSym []). split; [exact (Reads_pipe [] (fun b (H : In b []) => match H with end))|].
     repeat split; try reflexivity; discriminate.
-  - assert (Hbare : bare_ok (b :: r) = true -> existsb need_pipe (b :: r) = false ->
-                    RT (OSym (b :: r)) (symbol_text c (b :: r)) /\
-                    (inl = true -> symbol_text c (b :: r) = case_name (p_case c) (b :: r) /\ case_name (p_case c) (b :: r) <> [])).
-    { intros Hb Hnp. rewrite (keyword_no_pipe _ Hnp c).
-      destruct (bare_reads c (b :: r) Hb) as (y & HR & Ho & He & Ht & Hd & Hne).
-      split; [|intros _; split; [reflexivity|exact Hne]].
-      exists (TLeaf (LTok (case_name (p_case c) (b :: r)))), y. repeat split; try assumption. discriminate. }
-    destruct (N.eq_dec b 58) as [->|Hb58].
-    + (* keyword *) apply andb_true_iff in H as [Hnp Hb]. apply negb_true_iff in Hnp. apply Hbare; assumption.
-    + assert (Hm : match b :: r with [] => negb inl | 58 :: _ => negb (existsb need_pipe (b :: r)) && bare_ok (b :: r)
-                   | _ => if existsb need_pipe (b :: r) then forallb pipe_ok_byte (b :: r) && negb inl else bare_ok (b :: r) end =
-                   (if existsb need_pipe (b :: r) then forallb pipe_ok_byte (b :: r) && negb inl else bare_ok (b :: r))).
-      { destruct b as [|p]; [reflexivity|]. repeat (destruct p as [p|p|]; try reflexivity). contradiction. }
-      rewrite Hm in H. clear Hm. destruct (existsb need_pipe (b :: r)) eqn:Enp.
-      * (* |name| *)
-        apply andb_true_iff in H as [Hpipe Hinl]. apply negb_true_iff in Hinl. subst inl. split; [|discriminate].
-        assert (Etext : symbol_text c (b :: r) = [124] ++ case_name (p_case c) (b :: r) ++ [124]).
-        { unfold symbol_text. rewrite Enp. destruct b as [|p]; [reflexivity|]. repeat (destruct p as [p|p|]; try reflexivity). contradiction. }
-        rewrite Etext. exists (TLeaf (LPipe (case_name (p_case c) (b :: r)))), (OSym (case_name (p_case c) (b :: r))).
-        split.
-        { apply Reads_pipe. intros x Hx.
-          assert (HF : Forall (fun b => pipe_ok_byte b = true /\ b < 128) (case_name (p_case c) (b :: r))).
-          { apply case_name_forall; [apply pipe_ok_closed|]. apply Forall_forall. intros y Hy.
-            rewrite forallb_forall in Hpipe, Hascii. split; [apply Hpipe, Hy|]. specialize (Hascii y Hy). lia. }
-          destruct (in_cases x _ _ HF Hx) as [H1 H2]. apply pipe_ok_sym; assumption. }
-        repeat split; try reflexivity; try discriminate. cbn [obj_equal]. rewrite map_lower_case. apply bytes_eqb_refl.
-      * apply Hbare; [exact H|reflexivity].
+  - unfold sym_ok, symbol_text. intros H. apply andb_true_iff in H as [Hascii Ht]. apply andb_true_iff in Hascii as [H256 Hascii].
+    apply negb_true_iff in Ht.
+    set (w := case_name (p_case c) (b :: r)).
+    destruct (need_pipes (b :: r)) eqn:Enp.
+    + (* |name|, escaped *)
+      exists (TLeaf (LPipe w)), (OSym w).
+      split.
+      { apply Reads_pipe_body, pesc_body. apply case_name_bytes; assumption. }
+      repeat split; try reflexivity; try discriminate. cbn [obj_equal]. unfold w. rewrite map_lower_case. apply bytes_eqb_refl.
+    + destruct (bare_reads c (b :: r) H256 Enp Ht ltac:(discriminate)) as (y & HR & Ho & He & Ht' & Hd & Hne).
+      exists (TLeaf (LTok w)), y. repeat split; try assumption. discriminate.
 Qed.
 
 (* ------------------------------------------------------------------------------------------ *)
 (* every atom                                                                                    *)
 (* ------------------------------------------------------------------------------------------ *)
-Theorem RT_atom c inl x : readable_cfg c = true -> is_atom x = true -> atom_ok c inl x = true -> RT x (atom_text c x).
+Theorem RT_atom c x : readable_cfg c = true -> is_atom x = true -> atom_ok c x = true -> RT x (atom_text c x).
 Proof.
   intros Hc Ha Hok. destruct x; try discriminate Ha; cbn [atom_text atom_ok] in *.
   - apply RT_nil.
@@ -308,6 +370,6 @@ Proof.
   - apply RT_float. exact Hok.
   - apply RT_string. exact Hok.
   - apply RT_char; [|exact Hok]. unfold readable_cfg in Hc. repeat (apply andb_true_iff in Hc as [Hc ?]). exact Hc.
-  - apply (RT_sym c inl bs Hok).
+  - apply (RT_sym c bs Hok).
   - discriminate Hok.
 Qed.
